@@ -79,6 +79,11 @@ def shards(tier):
                                  else sc["bound_two_bursts"])
                         out.append(dict(shape=shape, window=w, n_tries=nt,
                                         extra=ex, seq=sq, bound=bound))
+    for nt in sc["n_tries"]:
+        for ex in sc["extra_timeout"]:
+            out.append(dict(shape=[1], window=1, n_tries=nt, extra=ex,
+                            seq="real", bound=sc["bound_one_burst"],
+                            via="send_scp"))
     out.append(dict(real_wrap_witness=True))
     return out
 
@@ -221,7 +226,17 @@ def run_execution(cfg, ch, acc, observer=None):
                 signal.signal(signal.SIGALRM, _wall_alarm)
                 signal.alarm(20)
                 try:
-                    conn.send_scp_burst(256, cfg["window"], iter(cmds))
+                    if cfg.get("via") == "send_scp":
+                        # the single-command front end: its extra timeout
+                        # must reach the burst it builds
+                        nonce = burst_nonces[0]
+                        extra = (ep.timeout_ms[nonce] / 1000.0) - T_DEFAULT
+                        pkt = conn.send_scp(256, 1, 2, 0, 7, nonce, 0, 0,
+                                            b"", expected_args=1,
+                                            timeout=extra)
+                        make_cb(nonce)(pkt.bytestring)
+                    else:
+                        conn.send_scp_burst(256, cfg["window"], iter(cmds))
                 finally:
                     signal.alarm(0)
             except WallTimeout as e:
